@@ -113,12 +113,13 @@ pub fn c07(cfg: &Cfg, idx: u64, st: &mut Stats) {
                 }
             }
         }
-        // "any number of times": one position gets 20 000 Interrupted in a row
+        // "any number of times": one position gets 100 000 Interrupted in a
+        // row (run on a thread with an ordinary 2 MiB stack)
         if w > 0 {
             let wi = rng.usize_below(w);
             let mut c = base.clone();
             c.plan.writes = vec![WStep::Full; wi];
-            c.plan.writes.extend(std::iter::repeat(WStep::Intr).take(20_000));
+            c.plan.writes.extend(std::iter::repeat(WStep::Intr).take(100_000));
             if st.report("C07", &Case::Build(c)) {
                 return;
             }
@@ -1804,6 +1805,25 @@ pub fn c13_cases(cfg: &Cfg) -> Vec<MemBuildCase> {
         out.push(MemBuildCase {
             fam: KeyFamily { n: (*f as u64).pow(*l), fanout: *f, keylen: *l, seed: seed ^ 0xde5e ^ i as u64, pairs: false, leaf_fan: 0, decreasing: false, repeat: 1, sec_vocab: 0, sec_parents: 0 },
             map: i == 1,
+            registry: *g,
+            bufcap: None,
+            every: 1000,
+            shape: shapes[i % shapes.len()],
+            bulk: false,
+            bulk_stream: false,
+            rejects: 0,
+            reject_run: 0,
+            threads: 1,
+            prologue: 0,
+        });
+    }
+    // complete trees whose every inner node is WIDE (40..64 transitions) and,
+    // as maps with irregular values, distinct: long stretches in which the
+    // cache sees wide nodes only, no small node in between
+    for (i, (f, l, g)) in [(40u32, 4u32, None), (48, 3, Some((64usize, 2usize))), (64, 3, Some((5, 7))), (33, 4, Some((128, 2)))].iter().enumerate() {
+        out.push(MemBuildCase {
+            fam: KeyFamily { n: (*f as u64).pow(*l), fanout: *f, keylen: *l, seed: seed ^ 0x71de ^ i as u64, pairs: false, leaf_fan: 0, decreasing: false, repeat: 1, sec_vocab: 0, sec_parents: 0 },
+            map: true,
             registry: *g,
             bufcap: None,
             every: 1000,
